@@ -66,7 +66,22 @@ func TestMakeReplays(t *testing.T) {
 	}
 }
 
-var extraReplays = []func(t *testing.T){makeC02Replays, makeC08Replays, makeC04Replays, makeC07Replays, makeC20Replays}
+var extraReplays = []func(t *testing.T){makeC02Replays, makeC08Replays, makeC04Replays, makeC07Replays, makeC20Replays, makeC19Replays}
+
+func makeC19Replays(t *testing.T) {
+	vals := map[string]int64{"i8": 2, "u8": 10, "i16": 10, "u16": 1, "i32": 7, "u32": 100, "i64": 3, "u64": 1, "sz": 10, "f32": 10, "f64": 57}
+	fld := func(n, p string) *ref.Expr2 { return &ref.Expr2{Kind: "field", Name: n, Prim: p} }
+	bin := func(op string, l, r *ref.Expr2) *ref.Expr2 { return &ref.Expr2{Kind: "bin", Op: op, L: l, R: r} }
+	par := func(e *ref.Expr2) *ref.Expr2 { return &ref.Expr2{Kind: "paren", L: e} }
+	writeReplay(t, "C19", "right-operand-parentheses", "c19", "a - (b - c) loses its parentheses",
+		C19Case{Values: vals, Vec: []int64{1, 2, 3}, Exprs: []*ref.Expr2{bin("-", fld("i32", "int32"), par(bin("-", fld("i16", "int16"), fld("i8", "int8"))))}})
+	writeReplay(t, "C19", "python-floor-division", "c19", "f64 / i32 is floored in Python",
+		C19Case{Values: vals, Vec: []int64{1, 2, 3}, Exprs: []*ref.Expr2{bin("/", fld("f64", "float64"), fld("i32", "int32"))}})
+	writeReplay(t, "C19", "unary-minus-under-power", "c19", "(-(f64)) ** 2 negates the power in Python",
+		C19Case{Values: vals, Vec: []int64{1, 2, 3}, Exprs: []*ref.Expr2{bin("**", par(&ref.Expr2{Kind: "neg", L: fld("f64", "float64")}), &ref.Expr2{Kind: "int", Lit: "2"})}})
+	writeReplay(t, "C19", "double-negated-float-literal", "c19", "-(-(0.5)) does not compile in C++",
+		C19Case{Values: vals, Vec: []int64{1, 2, 3}, Exprs: []*ref.Expr2{{Kind: "neg", L: &ref.Expr2{Kind: "neg", L: &ref.Expr2{Kind: "float", Lit: "0.5"}}}}})
+}
 
 func makeC20Replays(t *testing.T) {
 	c := C20Case{Initial: model.Files{"_package.yml": c20Manifest, "a.yml": watchModel(0, 0), "b.yml": "Other: !record\n  fields:\n    x: int\n"},
